@@ -1,11 +1,11 @@
 SPECIFICATION Spec
 CONSTANTS
-  Mods = {"e", "a"}
+  Mods = {"e", "a", "b"}
   Entry = "e"
-  Decls = {"d1", "d2"}
+  Decls = {"d1"}
   AliasIds = {"i1"}
-  Names = {"n1", "n2"}
-  MaxRefs = 1
+  Names = {"n1"}
+  MaxRefs = 2
   Emit = TRUE
   ModRefs = TRUE
 INVARIANT Agree
